@@ -393,6 +393,14 @@ def _decorated(fault):
         s.k["_decor_n"] = r.choice(range(decor_variants()))
         _extension_decor(s, r)
     return f
+def ch_expired_leaf_since_epoch(s, r): s.k["leaf_nb"], s.k["leaf_na"] = r.choice([0, 1, 86400]), T0 - r.choice([1, 2 * DAY, 1800 * DAY])
+def ch_future_leaf_forever(s, r): s.k["leaf_nb"], s.k["leaf_na"] = T0 + r.choice([1, DAY]), r.choice([253402300799, 2524608000, 4102444800])
+def ch_expired_inter_leaf_forever(s, r):
+    s.n_inter = max(1, s.n_inter); s.k["pki_kw"] = dict(inter_nb=T0 - 400 * DAY, inter_na=T0 - 10)
+    s.k["leaf_nb"], s.k["leaf_na"] = r.choice([0, T0 - DAY]), r.choice([253402300799, 2524608000])
+def ch_expired_root_leaf_forever(s, r):
+    s.k["pki_kw"] = dict(root_nb=T0 - 4000 * DAY, root_na=T0 - 10)
+    s.k["leaf_nb"], s.k["leaf_na"] = r.choice([0, T0 - DAY]), 253402300799
 def ch_bad_signature(s, r): s.k["leaf_signer"] = regsim.ec_key("unrelated_signer")
 def ch_missing_inter(s, r):
     s.n_inter = 2
@@ -412,6 +420,19 @@ def ch_attacker_ca_first(s, r):
     cert = regsim.make_cert(regsim.name("Attacker CA"), regsim.name("Attacker CA"), ak.public_key(), ak, ca=True)
     s.k["x5c_override"] = lambda pki, leaf: [regsim.der(cert)] + pki.chain_der(leaf)
     s.k["att_signer"] = type("K", (), {"sk": ak, "alg": -7, "sign": staticmethod(lambda msg, scheme=None: ak.sign(msg, ec.ECDSA(hashes.SHA256())))})()
+def ch_impostor_clone_closing_x5c(s, r):
+    # x5c = [leaf issued by the attacker's CA, the attacker's self-issued CA certificate]; that certificate copies the configured root's subject AND its subject key identifier
+    # (both are just bytes anybody can copy), is valid longer, but carries the attacker's key: it is no "newer issue" of the anchor
+    s.n_inter = 0
+    s.k["pki_kw"] = dict(s.k.get("pki_kw", {}), root_ski=True)
+    ak = regsim.ec_key("attacker_ca")
+    later = r.choice([9000, 400, 3651])
+    def x5c(pki, leaf):
+        ski = pki.root.extensions.get_extension_for_class(x509.SubjectKeyIdentifier).value
+        imp = regsim.make_cert(pki.root_name, pki.root_name, ak.public_key(), ak, ca=True, nb=T0 - 10 * DAY, na=T0 + later * DAY, exts=[(ski, False)], serial=4242)
+        return [regsim.der(leaf), regsim.der(imp)]
+    s.k["x5c_override"] = x5c
+    s.k["leaf_signer"] = ak
 def ch_surrogate_self_signed(s, r):
     # "surrogate basic attestation": x5c = one self-signed certificate over the CREDENTIAL key, statement signed with the credential key.
     # With anchors in force it chains to none of them.
@@ -436,13 +457,14 @@ CHAIN_FAULTS = {
     "not-yet-valid-root": ch_future_root, "corrupted-signature": ch_bad_signature, "missing-intermediate": ch_missing_inter,
     "non-ca-intermediate": ch_non_ca_inter,
     "attacker-ca-first-genuine-chain-as-intermediates": ch_attacker_ca_first,
-    "self-signed-certificate-over-the-credential-key": ch_surrogate_self_signed, "pinned-leaf-expired": ch_pinned_leaf_expired, "pinned-leaf-not-yet-valid": ch_pinned_leaf_future,
+    "impostor-root-clone-closing-x5c": ch_impostor_clone_closing_x5c, "expired-leaf:valid-since-the-epoch": ch_expired_leaf_since_epoch, "not-yet-valid-leaf:valid-until-9999": ch_future_leaf_forever,
+    "expired-intermediate:leaf-valid-until-9999": ch_expired_inter_leaf_forever, "expired-root:leaf-valid-until-9999": ch_expired_root_leaf_forever, "self-signed-certificate-over-the-credential-key": ch_surrogate_self_signed, "pinned-leaf-expired": ch_pinned_leaf_expired, "pinned-leaf-not-yet-valid": ch_pinned_leaf_future,
 }
 # the same faults with unrecognised (non-critical) extensions on the leaf - see _extension_decor
 for _n in ("expired-leaf", "not-yet-valid-leaf", "expired-intermediate", "expired-root", "impostor-root-same-name", "missing-intermediate"):
     CHAIN_FAULTS[_n + ":leaf-with-unrecognised-extensions"] = _decorated(CHAIN_FAULTS[_n])
 # chain faults whose no-anchor (pass-through) variant is not simply "accepted"
-NO_PASSTHROUGH_VARIANT = {"impostor-root-same-name", "impostor-root-same-name:leaf-with-unrecognised-extensions", "attacker-ca-first-genuine-chain-as-intermediates", "self-signed-certificate-over-the-credential-key"}
+NO_PASSTHROUGH_VARIANT = {"impostor-root-same-name", "impostor-root-clone-closing-x5c", "impostor-root-same-name:leaf-with-unrecognised-extensions", "attacker-ca-first-genuine-chain-as-intermediates", "self-signed-certificate-over-the-credential-key"}
 
 
 def applicable_kinds(fmt):
